@@ -583,7 +583,7 @@ theorem expire_cohD (cfg : Cfg) (n : Node) (D : List Nat) (exp : Option Nat) (hc
 with a store error -/
 def dirtyOp (D : List Nat) (mode : Mode) (op : Op) (st : Status) : List Nat :=
   match op with
-  | .acl _ _ | .grp _ _ | .label _ _ => if st = .err "NoSpace" then mode.fab :: D else D
+  | .acl _ _ | .grp _ _ | .label _ _ | .fwrite _ => if st = .err "NoSpace" then mode.fab :: D else D
   | _ => D
 
 theorem dirty_keep (D : List Nat) (j : Nat) (e : String) (he : e ≠ "NoSpace") :
@@ -646,6 +646,22 @@ theorem sessOp_label_cohD (cfg : Cfg) (n : Node) (D : List Nat) (sid s v : Nat) 
         have hD : mode.fab :: D = f.idx :: D := by rw [hidx]
         rw [hD]
         exact this
+
+theorem sessOp_fwrite_cohD (cfg : Cfg) (n : Node) (D : List Nat) (sid s : Nat) (mode : Mode) (hc : CohD n D) :
+    CohD (sessOp cfg n sid mode (.fwrite s)).1 (dirtyOp D mode (.fwrite s) (sessOp cfg n sid mode (.fwrite s)).2) := by
+  simp only [dirtyOp]
+  unfold sessOp
+  by_cases h0 : mode.fab = 0
+  · simp only [h0, if_true]; rw [dirty_keep _ _ _ (by decide)]; exact hc
+  · simp only [h0, if_false]
+    cases hg : getFabric n mode.fab with
+    | none => simp only []; rw [dirty_keep _ _ _ (by decide)]; exact hc
+    | some f =>
+      have hidx := getFabric_idx hg
+      have := cohD_fabric_write n D f f rfl (by omega) (by rw [hidx]; exact hg) hc
+      have hD : mode.fab :: D = f.idx :: D := by rw [hidx]
+      rw [hD]
+      exact this
 
 theorem sessOp_openW_cohD (cfg : Cfg) (n : Node) (D : List Nat) (sid s : Nat) (mode : Mode) (hc : CohD n D) :
     CohD (sessOp cfg n sid mode (.openW s)).1 D := by
@@ -1146,6 +1162,7 @@ theorem sessOp_cohD (cfg : Cfg) (n : Node) (D : List Nat) (sid : Nat) (mode : Mo
   | rmfab s idx => exact sessOp_rmfab_cohD cfg n D sid s idx mode hc
   | revoke s => exact sessOp_revoke_cohD cfg n D sid s mode hc
   | bcw s v => exact sessOp_bcw_cohD cfg n D sid s v mode hc
+  | fwrite s => exact sessOp_fwrite_cohD cfg n D sid s mode hc
   | _ => exact hc
 
 /-- the dirty set after one operation: a restart re-synchronises everything; a fabric-scoped write
